@@ -604,7 +604,7 @@ func main() {
 	}
 	var shards []string
 	dist := map[string]int{}
-	maxRead, inferred, events, problems := 0, 0, 0, 0
+	maxRead, inferred, events, problems, postReads := 0, 0, 0, 0, 0
 	var samples []result
 	for _, k := range []string{"ccases", "acases", "ncases"} {
 		gr := groups[k]
@@ -694,6 +694,7 @@ func main() {
 			maxRead = o.built.MaxRead
 		}
 		inferred += o.built.Inferred
+		postReads += o.built.PostReads
 		events += o.res.Events
 		problems += len(o.built.Problems)
 		if o.res.WallMs > slowest {
@@ -731,7 +732,7 @@ func main() {
 		"real_grace_scenarios": len(realGrace), "skipped_after_many_timeouts": skipped, "timed_out": timedOut.Load(),
 		"grid_complete_over": map[bool]string{true: "mode(5) x close order(3) x early{0,1,5} x banner{0,1,5} x listener read schedule(3) x handler(2) = 1620 gated scenarios", false: ""}[*tier == "thorough" && *replay == ""],
 		"distribution":       dist, "max_read_observed": maxRead, "copy_buf_len_observed": bufLen,
-		"inferred_reads": inferred, "events": events, "trace_problems": problems, "trace_problem_list": probList,
+		"inferred_reads": inferred, "reads_after_copier_finished_ignored": postReads, "events": events, "trace_problems": problems, "trace_problem_list": probList,
 		"fd_before": fd0, "fd_after": fd1, "payload_bytes": totalBytes, "slowest_scenario_ms": slowest,
 		"samples": samples,
 	}
